@@ -6,8 +6,12 @@ Import ListNotations.
 Local Open Scope res_scope.
 
 (* buf[i] = v on an object that is exactly the list buf *)
-Definition wr (buf : list N) (i : nat) (v : N) : res (list N) :=
-  if i <? length buf then Ok (firstn i buf ++ v :: skipn (S i) buf) else Fault.
+Fixpoint wr (buf : list N) (i : nat) (v : N) {struct buf} : res (list N) :=
+  match buf, i with
+  | [], _ => Fault
+  | _ :: r, O => Ok (v :: r)
+  | b :: r, S k => let* r' := wr r k v in Ok (b :: r')
+  end.
 
 (* memcpy(dst + doff, src + soff, n): every byte read and written through the checked accessors *)
 Fixpoint memcpy_m (dst : list N) (doff : nat) (src : list N) (soff n : nat) {struct n} : res (list N) :=
